@@ -94,6 +94,10 @@ def run_case(c):
     qd = [int(x) for x in H.qd]
     st = h.choose_state(rng, qd, L, c['bstyle'], c['Dmax'])
     psi = h.rand_state(rng, qd, st['qD'], scale=float(rng.choice([0.03, 1.0, 7.0])))
+    if c['seed'] % 3 == 0:
+        # real-valued tensors (float dtype) against possibly complex Hamiltonians
+        for _i in range(len(psi.A)):
+            psi.A[_i] = psi.A[_i].real.copy()
     v = oracle.mps_dense(psi.A)
     n_in = float(np.linalg.norm(v))
     if n_in < 1e-10:
